@@ -2,7 +2,7 @@ SPECIFICATION Spec
 CONSTANTS
   RepAll = TRUE
   Mode = "mc"
-  MaxNodes = 10
+  MaxNodes = 9
   Enabled = {"Module", "Head", "Param", "Struct", "Word", "Member", "TyPrim", "Fn", "Structural", "FieldFull", "FieldShort", "Int"}
   FlagSets <- FlagSets_none
   VarForms <- VarForms_init
